@@ -229,7 +229,7 @@ func (a *AttributeExpr) Validate(ctx string, parent eval.Expression) *eval.Valid
 		}
 		var pkgPath string
 		if ut, ok := a.Type.(UserType); ok {
-			if meta, ok := ut.Attribute().Meta["struct:pkg:path"]; ok {
+			if meta := ut.Attribute().Meta["struct:pkg:path"]; len(meta) > 0 {
 				pkgPath = meta[0]
 			}
 		}
@@ -287,7 +287,7 @@ func (a *AttributeExpr) validatePkgPath(pkgPath string, t DataType) *eval.Valida
 		// This check ensures we error if a sub-type has a different custom package type set
 		// or if two user types have different custom packages but share a sub-type (field that's a user type)
 		if ut.Attribute().Meta != nil &&
-			ut.Attribute().Meta["struct:pkg:path"] != nil &&
+			len(ut.Attribute().Meta["struct:pkg:path"]) > 0 &&
 			ut.Attribute().Meta["struct:pkg:path"][0] != pkgPath {
 			verr.Add(a, "type \"%s\" has conflicting packages %s and %s", ut.Name(), ut.Attribute().Meta["struct:pkg:path"][0], pkgPath)
 		}
@@ -309,7 +309,7 @@ func (a *AttributeExpr) Finalize() {
 	var pkgPath string
 	if ut, ok := a.Type.(UserType); ok {
 		ut.Finalize()
-		if meta, ok := ut.Attribute().Meta["struct:pkg:path"]; ok {
+		if meta := ut.Attribute().Meta["struct:pkg:path"]; len(meta) > 0 {
 			pkgPath = meta[0]
 		}
 	}
